@@ -3,11 +3,13 @@ use crate::engine::PropertyMeta;
 
 pub mod c03;
 pub mod c04;
+pub mod c05;
 pub mod c06;
 pub mod c07;
 pub mod c08;
 pub mod c09;
 pub mod c10;
+pub mod c11;
 pub mod c12;
 pub mod c14;
 pub mod c17;
@@ -16,5 +18,5 @@ pub mod c19;
 pub mod c20;
 
 pub fn all() -> Vec<PropertyMeta> {
-    vec![c03::meta(), c04::meta(), c06::meta(), c07::meta(), c08::meta(), c09::meta(), c10::meta(), c12::meta(), c14::meta(), c17::meta(), c18::meta(), c19::meta(), c20::meta()]
+    vec![c03::meta(), c04::meta(), c05::meta(), c06::meta(), c07::meta(), c08::meta(), c09::meta(), c10::meta(), c11::meta(), c12::meta(), c14::meta(), c17::meta(), c18::meta(), c19::meta(), c20::meta()]
 }
